@@ -891,7 +891,7 @@ class AT:
         if len(shape) == 1 and isinstance(shape[0], (tuple, list)):
             shape = tuple(shape[0])
         return jnp_reshape(self, shape)
-    def astype(self, _): return self
+    def astype(self, *a, **k): return self
     def sum(self, axis=None, **kw): return jnp_sum(self, axis, **kw)
     def mean(self, axis=None, **kw): return jnp_mean(self, axis, **kw)
 
